@@ -381,7 +381,7 @@ def fresh_kwarg_defaults(ctx, rule):
       nm = st.targets[0].id
       if any(isinstance(x, ast.Delete) and any(isinstance(t, ast.Subscript) and u(t.value) == nm for t in x.targets) for x in walk_local(cf.node)):
         mutators.append(cf.name)
-  kwarg_defaults_sources(ctx, rule)
+  ctx.section(kwarg_defaults_sources, ctx, rule)
   ctx.check(ok, rule, construct(f),
             'each call builds a fresh dict of signature defaults (callers %s filter it in place)' % (mutators or 'may'),
             'the dict of signature defaults handed out is not fresh (`%s`), but %s delete(s) entries from it in place: after the first '
@@ -507,7 +507,25 @@ def explicit_scope_replaces(ctx, rule):
     return out
 
   def tracked(v):
+    if isinstance(v, ast.Name):
+      ds = [a.value for a in walk_local(f.node) if isinstance(a, ast.Assign) and len(a.targets) == 1 and u(a.targets[0]) == v.id]
+      if len(ds) == 1:
+        v = ds[0]
     return v.elts[0] if isinstance(v, ast.Tuple) and len(v.elts) == 2 else None
+  # the names that receive the scope part of the split: `*scope, selector = s.split('/')`
+  starred = {x.value.id for a in walk_local(f.node) if isinstance(a, ast.Assign) for t in a.targets if isinstance(t, (ast.Tuple, ast.List))
+             for x in t.elts if isinstance(x, ast.Starred) and isinstance(x.value, ast.Name)}
+  empties = {u(a.targets[0]) for a in walk_local(f.node) if isinstance(a, ast.Assign) and len(a.targets) == 1 and isinstance(a.targets[0], ast.Name)
+             and u(a.value).replace(' ', '') in ('[]', '()', 'list()', 'tuple()')}
+  # the variable(s) the returned scope is read from, and the separator of `a, sep, b = s.rpartition('/')` (non-empty iff a scope was written)
+  tracked_names = set()
+  for r_ in [x for x in walk_local(f.node) if isinstance(x, ast.Return) and x.value is not None]:
+    tv = tracked(r_.value)
+    if tv is not None:
+      tracked_names |= {x.id for x in ast.walk(tv) if isinstance(x, ast.Name)}
+  separators = {a.targets[0].elts[1].id for a in walk_local(f.node) if isinstance(a, ast.Assign) and len(a.targets) == 1
+                and isinstance(a.targets[0], ast.Tuple) and len(a.targets[0].elts) == 3 and isinstance(a.targets[0].elts[1], ast.Name)
+                and isinstance(a.value, ast.Call) and isinstance(a.value.func, ast.Attribute) and a.value.func.attr in ('partition', 'rpartition')}
   bad = []
   for is_str, has_scope, label in ((True, True, "a string with a scope ('inner/fn')"), (True, False, "a string without a scope ('fn')"),
                                    (False, False, 'a function or class')):
@@ -519,9 +537,9 @@ def explicit_scope_replaces(ctx, rule):
         return has_scope if isinstance(t.ops[0], ast.In) else (not has_scope if isinstance(t.ops[0], ast.NotIn) else None)
       if isinstance(t, ast.Name) and t.id in env:
         c = env[t.id]
-        if not c:
+        if not c and t.id in starred | empties:
           return False                # built from nothing: an empty list
-        if c == {'SEL'}:
+        if c == {'SEL'} and (t.id in starred or t.id in tracked_names or t.id in separators):
           return has_scope
       return None
     try:
@@ -624,7 +642,7 @@ def signature_agreement(ctx, rule):
   else:
     ctx.hold(rule, construct(fac), 'all %d signature-inspecting helpers receive the same callable `%s`'
              % (sum(len(v) for v in args.values()), list(args)[0]), fac.loc(), sites=sum(len(v) for v in args.values()), instance='sig-agree')
-  construction_fn_order(ctx, rule)
+  ctx.section(construction_fn_order, ctx, rule)
   name = max(args, key=lambda k: len(args[k])) if args else None
   defs = [a for a in walk_local(fac.node) if isinstance(a, ast.Assign) and name and u(a.targets[0]) == name]
   texts = sorted(u(a.value) for a in defs)
@@ -655,6 +673,54 @@ def construction_fn_order(ctx, rule):
       ds = [x for x in walk_local(f.node) if isinstance(x, ast.Assign) and len(x.targets) == 1 and u(x.targets[0]) == e.id]
       return len(ds) == 1 and is_mro(ds[0].value, depth + 1)
     return False
+  # table-driven spelling: one nest of loops / generators over (classes of the MRO) x ('__init__', '__new__'), returning getattr(base, name)
+  def names_iter(e):
+    return isinstance(e, (ast.Tuple, ast.List)) and len(e.elts) == 2 and all(isinstance(x, ast.Constant) for x in e.elts) \
+        and {x.value for x in e.elts} == {'__init__', '__new__'}
+  nests = []      # (generators as [(target, iter)], guards, value, node)
+  for r in [x for x in walk_local(f.node) if isinstance(x, ast.Return) and x.value is not None]:
+    v = r.value
+    chain = [a for a in ancestors(r) if isinstance(a, (ast.For, ast.If)) and any(a is x for x in ast.walk(f.node))]
+    fors = [a for a in reversed(chain) if isinstance(a, ast.For)]
+    gens, guards = [], [a.test for a in chain if isinstance(a, ast.If) and any(r is x for st in a.body for x in ast.walk(st))]
+    for fo in fors:
+      if isinstance(fo.iter, (ast.ListComp, ast.GeneratorExp)) and isinstance(fo.iter.elt, ast.Tuple) and isinstance(fo.target, ast.Tuple) \
+          and [u(x) for x in fo.iter.elt.elts] == [u(x) for x in fo.target.elts]:
+        gens += [(g_.target, g_.iter) for g_ in fo.iter.generators]
+        guards += [i_ for g_ in fo.iter.generators for i_ in g_.ifs]
+      else:
+        gens.append((fo.target, fo.iter))
+    if isinstance(v, ast.Call) and u(v.func) == 'next' and v.args and isinstance(v.args[0], ast.GeneratorExp):
+      ge = v.args[0]
+      gens += [(g_.target, g_.iter) for g_ in ge.generators]
+      guards += [i_ for g_ in ge.generators for i_ in g_.ifs]
+      v = ge.elt
+    if any(names_iter(it) for _t, it in gens):
+      nests.append((gens, guards, v, r))
+  if nests:
+    for gens, guards, v, r in nests:
+      i_m = [i for i, (_t, it) in enumerate(gens) if is_mro(it)]
+      i_n = [i for i, (_t, it) in enumerate(gens) if names_iter(it)]
+      if len(i_m) != 1 or len(i_n) != 1 or len(gens) != 2 or not all(isinstance(t, ast.Name) for t, _ in gens):
+        raise AnalysisError('_find_class_construction_fn searches `%s`: not a nest this rule can read' % [u(it) for _t, it in gens])
+      B, N = gens[i_m[0]][0].id, gens[i_n[0]][0].id
+      atoms = []
+      for x in guards:
+        atoms += x.values if isinstance(x, ast.BoolOp) and isinstance(x.op, ast.And) else [x]
+      gtxt = [u(x).replace(' ', '') for x in atoms]
+      # skipping `object` changes nothing: it is last in every MRO and the fall-through handles it
+      gtxt = [t for t in gtxt if t not in ('%sisnotobject' % B, '%s!=object' % B)]
+      if not (isinstance(v, ast.Call) and u(v.func) == 'getattr' and [u(a) for a in v.args[:2]] == [B, N]) or \
+          not any(t in ('%sin%s.__dict__' % (N, B), '%sinvars(%s)' % (N, B)) for t in gtxt) or len(gtxt) != 1:
+        raise AnalysisError('_find_class_construction_fn returns `%s` under %s: not a form this rule can read' % (u(v), gtxt))
+      ctx.check(i_m[0] < i_n[0], rule, con, 'the search runs class by class along the MRO (the MRO loop is the outermost loop)',
+                'the names loop `%s` runs outside the MRO loop: the search is no longer class by class, so a class whose own __new__ (or __init__) carries the '
+                'parameters is passed over for one defined further up the MRO and the bound values never reach it' % u(gens[i_n[0]][1]), f.loc(r), instance='mro-outermost')
+      order = [x.value for x in gens[i_n[0]][1].elts]
+      ctx.check(order == ['__init__', '__new__'], rule, con, 'within one class __init__ is preferred: __new__ is returned only if the class defines no __init__',
+                'the names are tried in the order %s: for a class defining both, the bindings go to __new__ and its __init__ (called by Python with the caller\'s '
+                'arguments only) never sees them' % order, f.loc(r), instance='init-first')
+    return
   loops = [n for n in walk_local(f.node) if isinstance(n, ast.For) and is_mro(n.iter)]
   if not loops:
     raise AnalysisError('_find_class_construction_fn: no loop over the MRO of `%s` found' % P)
